@@ -303,6 +303,11 @@ class Module(ABC):
         idcs.columns = [col.replace("global", "local") for col in global_idx_cols]
         self.nodes[local_idx_cols] = idcs[local_idx_cols].astype(int)
 
+        # update local indices of edges (only views of a synapse type have them): as for
+        # the nodes, they count the synapses within the view.
+        if "local_edge_index" in self.edges.columns:
+            self.edges["local_edge_index"] = np.arange(len(self.edges))
+
         # move indices to the front of the dataframe; move controlled_by_param to the end
         # move indices of current scope to the front and the others to the back
         not_scope = "global" if self._scope == "local" else "local"
